@@ -216,8 +216,9 @@ class HCreateSolution(Handler):
                               {'quantity': qstr, 'solute': s.name})
                     continue
                 got_total = R.canon(s, res.contents.get(s, 0.0)) * R.per(s, qb)
-                cond = 32 * 2.3e-16 * max(amounts) / max(abs(res.contents.get(s, 0.0)), q)
-                tol = K * (abs(R.stored_quantum_in(s, qb)) * 2 + H1.request_quantum(qb)) + (1e-8 + overdet + cond) * abs(qv)
+                # (a stated quantity is taken as stated since 00f7f16: no solver conditioning on these rows - except where the
+                # request is over-determined and this quantity follows from another solute's, see overdet)
+                tol = K * (abs(R.stored_quantum_in(s, qb)) * 2 + H1.request_quantum(qb)) + (1e-8 + overdet) * abs(qv)
                 ok = M.ratio('SOLN.quantity', got_total, qv, tol)
                 if not ok:
                     M.violate(['C05'], 'SOLN', f'C05:solute_quantity_not_met:{qb}:{R.kind(s)}:{skind}',
